@@ -327,7 +327,7 @@ def rewrite_body(body, mode, stats):
     body = replace_balanced(body, r'StdError::generic_err\(\s*format!\(', '(', ')', 'StdError::generic_err("" /*erased*/', stats, 'R6_format')
     # the replace above consumed "format!( ... )" only; the closing paren of generic_err stays
     # R8: error struct literals
-    body = replace_balanced(body, r'\bOverflowError\s*\{', '{', '}', 'OverflowError::erased()', stats, 'R8_overflow_lit')
+    body = replace_balanced(body, r'(?<!-> )(?<!->)\bOverflowError\s*\{', '{', '}', 'OverflowError::erased()', stats, 'R8_overflow_lit')   # (not a closure's `-> OverflowError {` return type)
     body = replace_balanced(body, r'\bStdError::GenericErr\s*\{', '{', '}', 'StdError::erased()', stats, 'R8_generic_lit')
     body = replace_balanced(body, r'(?<![:\w])GenericErr\s*\{', '{', '}', 'StdError::erased()', stats, 'R8_generic_lit')
     # R11: cosmwasm_storage typed-cell primitives -> per-key shim primitives
@@ -748,7 +748,7 @@ def inline_helper(unit, rel, body, helper):
         hb = hbody
         if tname is not None:
             sv = '__%s_%d_self' % (hid, n)
-            pre = ('let %s: &%s = &(%s); ' % (sv, tname, sm.group(1)) if self_kind == 'ref' else 'let %s: %s = %s; ' % (sv, tname, sm.group(1))) + pre
+            pre = ('let %s: &%s = (%s).self_ref(); ' % (sv, tname, sm.group(1)) if self_kind == 'ref' else 'let %s: %s = %s; ' % (sv, tname, sm.group(1))) + pre
             hb = re.sub(r'\bself\b', sv, hbody)
         out.append(body[pos:sm.start()])
         # (the result gets the helper's declared return type, as the call expression had)
@@ -813,6 +813,9 @@ class Unit:
         self.inlined = {}      # helper -> where it was taken from
         self.absent = []       # listed functions that no longer exist on this tree
         self.tainted = set()   # functions that inline a function whose contract was dropped: a failed clause there is undecided, not a violation
+        self.moved = []        # R22: contracted functions found in another file than the one the contract list names
+        self.inlined_into = {} # function -> helpers inlined into it (R18)
+        self.adapt = {}        # R21: function -> {parameter: 'deref' | 'ref'}
         self.drop = set()      # contracted functions whose contract does not type-check on this tree: not emitted, inlined into callers
 
     def read_repo(self, rel):
@@ -1077,7 +1080,31 @@ def process_fn(unit, lines, i, arg, rel_tpl):
             a, b = find_impl_block(src, impl_hdr)
             ls, bo, be = find_fn(src, name, a, b)
         else:
-            ls, bo, be = find_fn(src, name)
+            try:
+                ls, bo, be = find_fn(src, name)
+            except AssembleError as e_moved:
+                if 'found 0' not in str(e_moved):
+                    raise
+                # not in its file any more: a function MOVED to another file of the same source directory or to a shared package is the
+                # same function (found exactly once there, free function); it is extracted from where it lives now
+                found_ = []
+                d_ = os.path.dirname(rel)
+                cands_ = [os.path.join(d_, f_) for f_ in sorted(os.listdir(os.path.join(unit.repo, d_))) if f_.endswith('.rs') and os.path.join(d_, f_) != rel]
+                for pk_ in ('packages/margined_common/src', 'packages/margined_perp/src', 'packages/margined_utils/src'):
+                    if os.path.isdir(os.path.join(unit.repo, pk_)) and pk_ != d_:
+                        cands_ += [os.path.join(pk_, f_) for f_ in sorted(os.listdir(os.path.join(unit.repo, pk_))) if f_.endswith('.rs')]
+                for c_ in cands_:
+                    try:
+                        s2_ = unit.read_repo(c_)
+                        r2_ = find_fn(s2_, name)
+                        found_.append((c_, s2_, r2_))
+                    except AssembleError:
+                        continue
+                if len(found_) != 1:
+                    raise e_moved
+                rel, src, (ls, bo, be) = found_[0]
+                unit.moved.append('%s (now in %s)' % (newname or name, rel))
+                unit.stats['R22_moved_function'] = unit.stats.get('R22_moved_function', 0) + 1
     except AssembleError as e_absent:
         if 'found 0' in str(e_absent) and not impl_hdr:
             # the function no longer exists on this tree (removed or renamed): nothing to verify against its contract; whoever called it
@@ -1091,6 +1118,25 @@ def process_fn(unit, lines, i, arg, rel_tpl):
     src_line = line_of(src, ls)
     mode = unit.mode
     st = unit.stats
+
+    # R21: the contract passes a parameter to a spec function by value, and the parameter has since become a reference (or the other way
+    # round): `p` in the contract and hint text becomes `(*p)` (or `(&p)`). Triggered by the front end's own E0308 "expected `T`, found `&T`"
+    # on that identifier (tools/runverus.py); only for names that are parameters of the present signature with a matching reference-ness.
+    adapt_ = {}
+    for pn_, how_ in (unit.adapt.get(newname or name) or {}).items():
+        mpt_ = re.search(r'[(,]\s*(?:mut\s+)?' + re.escape(pn_) + r'\s*:\s*(&?)', src[ls:bo])
+        if mpt_ and ((how_ == 'deref') == (mpt_.group(1) == '&')):
+            adapt_[pn_] = how_
+
+    def adapt_refs(text_):
+        if not adapt_:
+            return text_
+        code_, _, lab_ = text_.partition('//#')
+        for pn_, how_ in adapt_.items():
+            code_, c_ = re.subn(r'(?<![\w.*&])' + re.escape(pn_) + r'(?![\w(])', ('(*%s)' if how_ == 'deref' else '(&%s)') % pn_, code_)
+            if c_:
+                st['R21_contract_ref_adapt'] = st.get('R21_contract_ref_adapt', 0) + c_
+        return code_ + (('//#' + lab_) if _ else '')
 
     # R3: named return
     sig_nc = sig
@@ -1191,6 +1237,7 @@ def process_fn(unit, lines, i, arg, rel_tpl):
                   helpers_.add(d_)
           for helper_ in sorted(helpers_):
               body = inline_helper(unit, rel, body, helper_)
+              unit.inlined_into.setdefault(newname or name, set()).add(helper_)
               if helper_ in unit.drop:
                   unit.tainted.add(newname or name)
           body = rewrite_body(body, 'total' if total else mode, st)
@@ -1202,7 +1249,7 @@ def process_fn(unit, lines, i, arg, rel_tpl):
           # splice loops / after / atstart
           inserts = []  # (offset in body, text, origin)
           for kind, key, sl in sections[1:]:
-              text = '\n'.join(l for l, _ in sl)
+              text = '\n'.join(adapt_refs(l) for l, _ in sl)
               origin = '%s:%d' % (rel_tpl, sl[0][1] if sl else j)
               if kind == 'loop':
                   loops = find_loops(body)
@@ -1246,6 +1293,7 @@ def process_fn(unit, lines, i, arg, rel_tpl):
     fn_rec['out_start'] = unit.cur_line()
     unit.emit(sig, '%s:%d' % (rel, src_line))
     for l, lno in sections[0][2]:
+        l = adapt_refs(l)
         mm = LABEL_RX.search(l)
         if mm:
             props = [p.strip() for p in mm.group(1).split(',') if p.strip()]
@@ -1299,13 +1347,14 @@ def emit_chunk(unit, chunk, rel, src, src_off):
         unit.out.append((ln, '%s:%d' % (rel, base + k)))
 
 
-def assemble(unit_name, repo='/repo', mode='partial', outdir=None, stub=None, inline=None, drop=None):
+def assemble(unit_name, repo='/repo', mode='partial', outdir=None, stub=None, inline=None, drop=None, adapt=None):
     outdir = outdir or os.path.join(VERIF, 'build')
     os.makedirs(outdir, exist_ok=True)
     unit = Unit(unit_name, repo, mode)
     unit.stub = set(stub or [])
     unit.inline = {k: set(v) for k, v in (inline or {}).items()}
     unit.drop = set(drop or [])
+    unit.adapt = {k: dict(v) for k, v in (adapt or {}).items()}
     tpl = os.path.join(VERIF, 'specs', unit_name + '.vrs')
     header = ('#![allow(unused_imports, dead_code, unused_variables, unused_mut, unused_assignments, non_snake_case, unreachable_code, unused_parens, non_upper_case_globals)]\n'
               '#![verifier::allow(autoderive_clone_without_spec)]\n'
@@ -1320,6 +1369,11 @@ def assemble(unit_name, repo='/repo', mode='partial', outdir=None, stub=None, in
     unit.emit('pub mod unit {\nuse vstd::prelude::*;\nuse vstd::arithmetic::div_mod::*;\nuse vstd::arithmetic::mul::*;\n'
               'use vstd::std_specs::convert::*;\nuse crate::base::*;\nbroadcast use crate::base::group_base;\n', 'header')
     process_template(unit, tpl)
+    # a contracted function is gone from this tree (removed / renamed) AND some function now inlines a helper that is not under contract:
+    # the helper may be the renamed successor of the lost function, whose contract (and the proof hints behind it) the caller's proof
+    # used to rest on - a clause of such a caller that fails is undecided, never a violation (cf. the dropped-contract rule)
+    if any('inlined into its callers' not in a_ for a_ in unit.absent):
+        unit.tainted |= set(unit.inlined_into)
     unit.emit('\n} // mod unit\n} // verus!\nfn main() {}\n', 'footer')
     suffix = '' if mode == 'partial' else '_' + mode
     out_rs = os.path.join(outdir, unit_name + suffix + '.rs')
@@ -1331,7 +1385,7 @@ def assemble(unit_name, repo='/repo', mode='partial', outdir=None, stub=None, in
     h.update(mode.encode())
     meta = {'unit': unit_name, 'mode': mode, 'file': out_rs, 'origins': [o for _, o in unit.out],
             'functions': unit.functions, 'labels': unit.labels, 'theorems': unit.theorems,
-            'stubbed': unit.stubbed, 'skipped_total': unit.skipped, 'inlined': unit.inlined, 'absent': unit.absent, 'tainted': sorted(unit.tainted), 'extraction': unit.stats, 'inputs': sorted(set(unit.inputs)), 'hash': h.hexdigest()}
+            'stubbed': unit.stubbed, 'skipped_total': unit.skipped, 'inlined': unit.inlined, 'absent': unit.absent, 'tainted': sorted(unit.tainted), 'moved': unit.moved, 'extraction': unit.stats, 'inputs': sorted(set(unit.inputs)), 'hash': h.hexdigest()}
     with open(os.path.join(outdir, unit_name + suffix + '.map.json'), 'w') as f:
         json.dump(meta, f)
     return meta
